@@ -16,6 +16,12 @@ TCase == /\ Ev("crash.case") /\ UNCHANGED done
 \* a stress scenario ran in a sacrificial process: it must not end with a panic or a fatal runtime error
 TStress == /\ Ev("crash.stress") /\ UNCHANGED <<done, seen>>
            /\ Flag(E.exit = "ok", "sacrificial process terminated abnormally (panic / fatal error) or wedged")
+\* a peer that vanished between the acceptance of its login and the login answer: its session ends like any other, the
+\* next login with that run id is answered and served (no permanent stall of the run id)
+TRelogin == /\ (Ev("crash.relogin") \/ Ev("ctl.start")) /\ UNCHANGED <<done, seen>>
+            /\ IF E.ev = "ctl.start" THEN UNCHANGED bad
+               ELSE bad' = bad \cup (IF E.ran THEN {} ELSE {<<"scenario could not run", l>>})
+                              \cup (IF E.answered THEN {} ELSE {<<"a login with the run id of a session whose peer vanished before the login answer was written is never answered (the run id is wedged)", l>>})
 \* the run covered every message type in both phases
 TCoverage == /\ Ev("crash.coverage") /\ UNCHANGED <<done, seen>>
              /\ Flag(/\ \A m \in MsgTypes : \E c \in Classes, p \in ServerPhases : <<m, c, p>> \in seen
@@ -28,7 +34,7 @@ TCoverageClient == /\ Ev("crash.coverage.client") /\ UNCHANGED <<done, seen>>
                            /\ \A p \in ClientPhases : \E m \in MsgTypes, c \in Classes : <<m, c, p>> \in seen,
                            "a message type / a place where a server may speak was never exercised against the client")
 TNote == Ev("drv.note") /\ UNCHANGED <<done, seen>> /\ bad' = bad \cup {<<"scenario could not run", l>>}
-TNext == TReset \/ TCase \/ TStress \/ TCoverage \/ TCoverageClient \/ TNote
+TNext == TRelogin \/ TReset \/ TCase \/ TStress \/ TCoverage \/ TCoverageClient \/ TNote
 TSpec == TInit /\ [][TNext]_<<l, bad, done, seen>>
 NoMismatch == bad = {}
 HWM == TLCSet(1, IF TLCGet(1) < l THEN l ELSE TLCGet(1))
